@@ -428,7 +428,7 @@ func GenHistory(t *rapid.T, hp *HistoryParams) Case {
 		}
 		maxKind := 8
 		if hp.Episodes {
-			maxKind = 16
+			maxKind = 17
 		}
 		sched := func() []int { return GenSchedule(t) }
 		pk := rapid.IntRange(0, maxKind).Draw(t, "phraseKind")
@@ -436,6 +436,20 @@ func GenHistory(t *rapid.T, hp *HistoryParams) Case {
 			pk = 16
 		}
 		switch pk {
+		case 17: // the periodic pod-IP sync has read an old incarnation from the cache; its delete event, its unbind, the cache update and
+			// the replacement's scheduling all run before the sync goes on
+			var s17 []int
+			for i, k := 0, rapid.IntRange(1, 5).Draw(t, "syncPrefix"); i < k; i++ {
+				s17 = append(s17, 0)
+			}
+			for i := 0; i < 80; i++ {
+				s17 = append(s17, 1)
+			}
+			// (the cache still holds the old incarnation when the episode starts: nothing is delivered in between)
+			victim := rapid.IntRange(0, 7).Draw(t, "victim")
+			c.Ops = append(c.Ops, Op{K: "phase", A: victim, B: 0}, Op{K: "deliver"}, Op{K: "deliver"}, Op{K: "recreate", A: victim},
+				Op{K: "episode", Sub: []Op{{K: "syncips"}, {K: "deliverlate"}, ab("unbindlate"), {K: "synclister", A: 2}, ab("sched")}, Sched: s17},
+				Op{K: "resync"})
 		case 16: // a pod is retired, its events handled, an administrator releases what it left behind, then the pod comes back
 			c.Ops = append(c.Ops, ab("delete"), Op{K: "deliver"}, Op{K: "deliver"}, ab("unbind"), ab("apirelease"), ab("create"), ab("sched"))
 		case 14, 15: // the old incarnation's unbind holds the pod lock while the replacement's bind and an API release queue behind it;
